@@ -252,10 +252,27 @@ func c01EdgeStarts(fn *ssa.Function, e Barrier) []c01Start {
 
 // c01ValueIs matches the expression describing exactly this SSA value.
 func c01ValueIs(v ssa.Value) Pat {
-	return func(e *Expr) bool {
+	var is func(e *Expr, d int) bool
+	is = func(e *Expr, d int) bool {
 		e = strip(e)
-		return e != nil && e.V == v
+		if e == nil || d > 3 {
+			return false
+		}
+		if e.V == v {
+			return true
+		}
+		// the value merged with the same result of a sibling call (err from either of
+		// two alternative validators, tested once after the merge)
+		if e.K == EPhi || e.K == EAlloc {
+			for _, a := range e.Args {
+				if is(a, d+1) {
+					return true
+				}
+			}
+		}
+		return false
 	}
+	return func(e *Expr) bool { return is(e, 0) }
 }
 
 // c01ErrResult returns the error result of a call instruction: the call value
